@@ -78,7 +78,7 @@ func (h *quietHub) Log(name string, level int, file string, line int, msg string
 		os.Exit(3)
 	}
 }
-func (h *quietHub) Reopen(path string) error          { return nil }
+func (h *quietHub) Reopen(path string) error           { return nil }
 func (h *quietHub) GetLastLog() []byte                 { return nil }
 func (h *quietHub) DumpBuffer(all bool, out io.Writer) {}
 func (h *quietHub) take() []string {
